@@ -107,7 +107,9 @@ CHECKS["C01"] = (RECV + "MAIN THEOREM (Run/SpecSound.v expected_sound, Run/SpecC
          "type's value-for-absent, else its default). The property itself is the executable per-FIELD specification Spec/C01.v `expected`, evaluated in Coq on the value the real derived code returned for 193 compiled corpus "
          "receivers x receiver-directed mistake-free inputs (all six traits: element-level receivers through C08 / C16's corpus); model and code are compared on every case.",
          "Coq proof (loop invariant = per-field comprehension, for any converters) + per-field executable specification evaluated on the implementation's output; per-run differential correspondence against compiled receivers")
-CHECKS["C02"] = (RECV + "Theorem C02_fails_exactly_on_mistaken_inputs: for every receiver of any depth the parser returns no value exactly when the per-field specification finds the input mistaken. Theorems for ANY field list / implementers / callables and EVERY item list: the recorded errors are item by item what each item contributes given only its predecessors (literal, repeat, unaddressed name, "
+CHECKS["C02"] = (RECV + "MAIN THEOREM (Run/SpecCount.v mistakes_count, induction over the universe of receiver types): for every receiver of any depth and every meta item the error the generated parser returns has EXACTLY "
+         "as many leaves as the per-field specification counts mistakes in the input (literals, unaddressed names, repeats, missing required items, recursively the mistakes inside values), at least one, and a value "
+         "is returned only when the count is zero; kwfb, the executable test of its hypotheses, is proved sound and evaluated on every receiver run. Theorem C02_fails_exactly_on_mistaken_inputs: for every receiver of any depth the parser returns no value exactly when the per-field specification finds the input mistaken. Theorems for ANY field list / implementers / callables and EVERY item list: the recorded errors are item by item what each item contributes given only its predecessors (literal, repeat, unaddressed name, "
          "rejected value), exactly one error per mistaken item and none otherwise (count theorem), in input order; the loop never returns early; the level fails only through its single early return with the bundle of ALL "
          "recorded errors (loop, flatten member, missing fields). The property is Spec/C01.v: parsing fails iff `expected` is undefined, and then the error has exactly `mistakes` leaves (recursively through nested receivers, "
          "enum variants and maps), evaluated on the real output for inputs with 0-8 injected mistakes at every depth (incl. malformed nested lists).",
